@@ -39,7 +39,7 @@ NoDup(c) == Cardinality(ToSet(c.nondust)) = Len(c.nondust) /\ Cardinality(ToSet(
 TraceInit ==
   /\ l = 1 /\ nodeOf = <<>> /\ saved = <<>> /\ everRAA = <<>> /\ projB = <<>>
   /\ fw = [adds |-> {}, downFul |-> {}, upClaimed |-> {}, settledNow |-> {}, base0 |-> <<>>, pol |-> <<>>,
-           shut |-> {}, closeFee |-> <<>>, newInfl |-> {}, crashed |-> {}, liveAtCrash |-> {}, snapKnows |-> <<>>, needSent |-> {}, owed |-> {}]
+           shut |-> {}, closeFee |-> <<>>, newInfl |-> {}, crashed |-> {}, liveAtCrash |-> {}, snapKnows |-> <<>>, needSent |-> {}, owed |-> {}, settled |-> FALSE, pays |-> {}, claimedEv |-> {}, sentEv |-> {}, failEv |-> {}]
   /\ par = <<>> /\ cnt = <<>> /\ hs = <<>> /\ fees = <<>> /\ feeBase = <<>> /\ base = <<>>
   /\ link = <<>> /\ redo = <<>> /\ lastCS = <<>> /\ order = <<>> /\ pts = <<>> /\ mon = <<>>
   /\ ownExp = <<>>
@@ -72,7 +72,7 @@ TOpen ==
         /\ saved' = <<>> /\ projB' = <<>>
         /\ fw' = [adds |-> {}, downFul |-> {}, upClaimed |-> {}, settledNow |-> {},
                    base0 |-> [e \in E |-> IF e[2] = 1 THEN cs[ch(e[1])].bal_a_msat ELSE cs[ch(e[1])].bal_b_msat],
-                   pol |-> R.policy, shut |-> {}, closeFee |-> [c \in C |-> 0], newInfl |-> {}, crashed |-> {}, liveAtCrash |-> {}, snapKnows |-> <<>>, needSent |-> {}, owed |-> {}]
+                   pol |-> R.policy, shut |-> {}, closeFee |-> [c \in C |-> 0], newInfl |-> {}, crashed |-> {}, liveAtCrash |-> {}, snapKnows |-> <<>>, needSent |-> {}, owed |-> {}, settled |-> FALSE, pays |-> {}, claimedEv |-> {}, sentEv |-> {}, failEv |-> {}]
 
 \* not part of the commitment protocol; `warning` / `disconnect_peer` ask the transport to drop the
 \* peer (the harness then disconnects, as PeerManager would) -- an `error` is never acceptable
@@ -97,6 +97,9 @@ MayFailUp(n, e, id) ==
                       /\ (<<n, h>> \in fw.downFul => n \in fw.crashed)     \* given the preimage: only a crash can have lost it
 
 Harmless == Ignored \cup {"error", "channel_reestablish"}
+\* after a crash in the run a broken promise about what was pending is C10's, otherwise C01's
+GF(p) == IF fw.crashed = {} THEN G1(p) ELSE G10(p)
+GE(p) == IF fw.crashed = {} THEN G2(p) ELSE G10(p)
 TMsg ==
   /\ IsEvent("msg")
   /\ UNCHANGED <<nodeOf, saved, projB>>
@@ -139,7 +142,8 @@ TDeliver ==
   /\ fw' = IF R.chan = 0 THEN fw ELSE
             IF R.kind = "update_add_htlc"
             THEN [fw EXCEPT !.adds = @ \cup {[node |-> R.to, chan |-> R.chan, dir |-> "in", hash |-> R.hash, amt |-> R.amt, cltv |-> R.cltv]}]
-            ELSE IF R.kind = "update_fulfill_htlc" THEN [fw EXCEPT !.downFul = @ \cup {<<R.to, R.hash>>}]
+            ELSE IF R.kind = "update_fulfill_htlc" /\ ~Closed(EP(R.chan, R.to))   \* (a closed endpoint ignores it)
+                 THEN [fw EXCEPT !.downFul = @ \cup {<<R.to, R.hash>>}]
             ELSE IF R.kind = "revoke_and_ack" /\ ~Closed(EP(R.chan, R.to))
                  THEN \* fulfilled outbound HTLCs whose removal this revocation makes irrevocable
                       \* (accumulated: the monitor update of this revocation may be held back and reach Persist later)
@@ -173,6 +177,10 @@ TPersist ==
   \* a closed channel accepts no further revocation secret (in particular not a forged one)
   /\ Closed(EP(R.chan, R.node)) => G5(StepsOf("commitment_secret") = {})
   /\ IF ~R.has_update \/ Closed(EP(R.chan, R.node)) \/ R.kind = "load" THEN UNCHANGED cvars
+     ELSE IF StepsOf("force_closed") # {} /\ Closed(Peer(EP(R.chan, R.node)))
+     THEN \* the peer has closed (its commitment is on the chain, or it said so): this side gives the channel up too
+          /\ link' = [link EXCEPT ![EP(R.chan, R.node)] = "closed"]
+          /\ Unch(<<par, cnt, hs, fees, feeBase, base, redo, lastCS, order, pts, mon, ownExp>>)
      ELSE LET e == EP(R.chan, R.node)
               cpN == {R.steps[k].c.num : k \in StepsOf("counterparty_commitment")}
               hoN == {R.steps[k].c.num : k \in StepsOf("holder_commitment")}
@@ -185,7 +193,7 @@ TPersist ==
                    /\ G1(R.steps[k].c.num \in DOMAIN ownExp[e] => Content(R.steps[k].c) = ownExp[e][R.steps[k].c.num])
              \* a stored revocation secret is the one for the commitment just revoked
              /\ \A k \in StepsOf("commitment_secret") : G5(R.steps[k].idx = cnt[e].recvRAA - 1)
-             /\ \A k \in StepsOf("force_closed") : G1(FALSE)
+             /\ \A k \in StepsOf("force_closed") : GF(FALSE)      \* never on honest traffic with a live peer
              \* C02: before the downstream monitor forgets a fulfilled HTLC the preimage is durable upstream
              /\ \A k \in StepsOf("commitment_secret") : \A sh \in fw.settledNow :
                    (sh[1] = e) => \A u \in UpAdds(R.node, sh[2]) :
@@ -198,7 +206,8 @@ TComplete == /\ IsEvent("complete") /\ UNCHANGED Aux
 \* ---- the user asks to send: the reported limits are exact (C01)
 TSend ==
   /\ IsEvent("send")
-  /\ Stutter
+  /\ UNCHANGED <<cvars, nodeOf, saved, everRAA, projB>>
+  /\ fw' = IF R.result = "ok" THEN [fw EXCEPT !.pays = @ \cup {[hash |-> R.hash, payer |-> R.node, amt |-> R.amt]}] ELSE fw
   /\ G1(R.usable => /\ (R.first_amt >= R.min /\ R.first_amt <= R.limit) => R.result = "ok"
                     /\ (R.first_amt > R.limit \/ R.first_amt < R.min) => R.result = "err")
 
@@ -233,7 +242,10 @@ TCrash ==
                        \* the refusal (pending events are part of it)
                        !.owed = {o \in @ : o[1] # R.node \/ o[4] <= R.mgr},
                        !.liveAtCrash = {p \in @ : p[1] # R.node} \cup
-                          {<<R.node, x.hash>> : x \in UNION {{y \in hs[e] : y.dir = "out" /\ MonIds[e] >= mon[e].last} : e \in {z \in EPsOf(R.node) : ~Closed(z)}}},
+                          \* (the monitor knows a claim once the peer's signature for the removal was accepted: rem >= 1;
+                          \* an update_fulfill_htlc alone is in no durable state)
+                          {<<R.node, x.hash>> : x \in UNION {{y \in hs[e] : y.dir = "out" /\ MonIds[e] >= mon[e].last
+                                                                      /\ (y.res = "fulfill" => y.rem >= 1)} : e \in {z \in EPsOf(R.node) : ~Closed(z)}}},
                        \* claims the durable monitor knows (peer's signature for the removal was accepted, so the
                        \* holder-commitment update recorded the claim) but the restored manager does not: the
                        \* restarted node must report them as sent again (own payments)
@@ -278,6 +290,13 @@ TBroadcast ==
 CoopClose == R.kind = "ChannelClosed" /\ R.reason = "CooperativeClosure"
 \* events the library documents as re-delivered until handled (the user's handler may answer ReplayEvent)
 PersistentEvents == {"PaymentSent", "PaymentFailed", "PaymentClaimable"}
+\* the user closes a channel unilaterally
+TForceClose == /\ IsEvent("force_close") /\ UNCHANGED Aux
+               /\ link' = [link EXCEPT ![EP(R.chan, R.node)] = "closed"]
+               /\ Unch(<<par, cnt, hs, fees, feeBase, base, redo, lastCS, order, pts, mon, ownExp>>)
+\* every broadcast transaction has been mined and every timelock of the run has expired
+TSettled == /\ IsEvent("settled") /\ UNCHANGED <<cvars, nodeOf, saved, everRAA, projB>>
+            /\ fw' = [fw EXCEPT !.settled = TRUE]
 TEventRefused ==
   /\ IsEvent("event_refused") /\ UNCHANGED <<cvars, nodeOf, saved, everRAA, projB>>
   /\ fw' = IF R.kind \in PersistentEvents THEN [fw EXCEPT !.owed = @ \cup {<<R.node, R.kind, R.hash, R.snap>>}] ELSE fw
@@ -285,7 +304,10 @@ TEvent ==
   /\ IsEvent("event") /\ UNCHANGED <<nodeOf, saved, everRAA, projB>>
   /\ fw' = IF R.kind \in PersistentEvents
             THEN [fw EXCEPT !.needSent = IF R.kind = "PaymentSent" THEN @ \ {<<R.node, R.hash>>} ELSE @,
-                            !.owed = {o \in @ : ~(o[1] = R.node /\ o[2] = R.kind /\ o[3] = R.hash)}]
+                            !.owed = {o \in @ : ~(o[1] = R.node /\ o[2] = R.kind /\ o[3] = R.hash)},
+                            !.sentEv = IF R.kind = "PaymentSent" THEN @ \cup {<<R.node, R.hash>>} ELSE @,
+                            !.failEv = IF R.kind = "PaymentFailed" THEN @ \cup {<<R.node, R.hash>>} ELSE @]
+            ELSE IF R.kind = "PaymentClaimed" THEN [fw EXCEPT !.claimedEv = @ \cup {R.hash}]
             ELSE fw
   /\ IF CoopClose /\ ~Closed(EP(R.chan, R.node))
      THEN \* a cooperative close needs a shutdown exchange and no pending HTLC
@@ -293,7 +315,7 @@ TEvent ==
           /\ link' = [link EXCEPT ![EP(R.chan, R.node)] = "closed"]
           /\ Unch(<<par, cnt, hs, fees, feeBase, base, redo, lastCS, order, pts, mon, ownExp>>)
      ELSE /\ UNCHANGED cvars
-          /\ R.kind = "ChannelClosed" => G1(Closed(EP(R.chan, R.node)))
+          /\ R.kind = "ChannelClosed" => GF(Closed(EP(R.chan, R.node)))
   /\ R.kind = "PaymentSent" => R.preimage_ok
   \* A payment whose preimage this node has been given (update_fulfill_htlc delivered to it) is not
   \* reported failed.  After a restart from a stale ChannelManager the library documents one rare
@@ -304,7 +326,6 @@ TEvent ==
         G10(<<R.node, R.hash>> \in fw.downFul =>
               (R.node \in fw.crashed /\ <<R.node, R.hash>> \notin fw.liveAtCrash))
 
-GF(p) == IF fw.crashed = {} THEN G1(p) ELSE G10(p)
 TProj ==
   /\ IsEvent("proj")
   /\ UNCHANGED <<cvars, nodeOf, saved, everRAA, fw>>
@@ -313,7 +334,7 @@ TProj ==
   \* (an HTLC whose other leg is on a channel that was force-closed waits for the chain, which is not part of these runs)
   \* (after a crash in the run this is C10's "every HTLC that was pending still resolves", otherwise C01's)
   /\ (R.final /\ ~Closed(EP(R.chan, R.node))) =>
-        /\ GF(\A x \in hs[EP(R.chan, R.node)] : \E a \in fw.adds : a.hash = x.hash /\ Closed(EP(a.chan, a.node)))
+        /\ GF(\A x \in hs[EP(R.chan, R.node)] : ~fw.settled /\ \E a \in fw.adds : a.hash = x.hash /\ Closed(EP(a.chan, a.node)))
         /\ GF(R.n_in + R.n_out = Cardinality(hs[EP(R.chan, R.node)]))
   \* the projection after a reload equals the one taken before it
   /\ (R.after_reload /\ <<R.node, R.chan>> \in DOMAIN projB) =>
@@ -321,7 +342,7 @@ TProj ==
         G12(b.out_cap = R.out_cap /\ b.in_cap = R.in_cap /\ b.n_in = R.n_in /\ b.n_out = R.n_out /\ b.ready = R.ready)
 
 TOther ==
-  /\ l <= Len(Rec) /\ Rec[l].ev \in {"forward", "claim", "fail", "fee", "tick", "block", "persist_mode", "restarted", "close", "open_extra", "pause_flush", "flush", "hold_events"}
+  /\ l <= Len(Rec) /\ Rec[l].ev \in {"forward", "claim", "fail", "fee", "tick", "block", "persist_mode", "restarted", "close", "open_extra", "pause_flush", "flush", "hold_events", "settle_chain", "mine_skipped"}
   /\ l' = l + 1 /\ Stutter
 
 \* ---- a channel opened while the run is in progress (C09: nothing that depends on the initial
@@ -337,6 +358,9 @@ TExtra ==
      \* (funding_signed is deliberately sent at once by the acceptor -- it has nothing at stake yet --
      \* and is not in the property's list; channel_ready and the funding broadcast are)
      /\ (r.ev = "msg" /\ r.kind = "channel_ready") => G9(<<r.from, r.chan>> \notin fw.newInfl)
+     \* ... and once it is, exactly what was held comes out: at the end of a wound-down run (every write
+     \* completed, peers connected, everything delivered) a channel whose funding is buried is ready
+     /\ (r.ev = "proj" /\ r.final /\ r.confs_req > 0 /\ r.confs >= r.confs_req) => G9(r.ready)
 
 \* C12: the scorer survives serialization (same bytes, same answers), truncations are refused
 TScorer == IsEvent("rt_scorer") /\ Stutter
@@ -349,6 +373,15 @@ TFin ==
   /\ G10(\A p \in fw.needSent : p[1] # R.node)
   \* C10: every event the user refused was handed over again
   /\ G10(\A o \in fw.owed : o[1] # R.node)
+  \* Once the chain has settled everything (C02 / C10, end to end): a payment of this node -- which never
+  \* restarted -- that the recipient claimed was reported sent and never failed (otherwise a hop in between
+  \* lost the money), and every payment has reached its terminal event.  (Amounts that may have no output on
+  \* a commitment transaction are forfeited to fees when their channel closes: not judged.)
+  /\ (fw.settled /\ R.node \notin fw.crashed) =>
+        \A p \in {q \in fw.pays : q.payer = R.node /\ q.amt >= 10000000} :
+           /\ GE(p.hash \in fw.claimedEv => <<R.node, p.hash>> \in fw.sentEv)
+           /\ GE(<<R.node, p.hash>> \in fw.failEv => p.hash \notin fw.claimedEv)
+           /\ GE(<<R.node, p.hash>> \in fw.sentEv \cup fw.failEv)
   /\ ~AnyClosed(R.node) =>
         \* C02: every preimage the node learned downstream was used upstream ...
         /\ G2(\A p \in fw.downFul : (p[1] = R.node /\ UpAdds(R.node, p[2]) # {}) => p \in fw.upClaimed)
@@ -360,7 +393,7 @@ TFin ==
                                     {a \in fw.adds : a.node = n /\ a.dir = "in"})
                IN gotIn >= paidOut)
 
-TraceNext == TEventRefused \/ TFin \/ TScorer \/ TExtra \/ TOpen \/ TMsg \/ TDeliver \/ TPersist \/ TComplete \/ TSend \/ TDisconnect \/ TReconnect
+TraceNext == TForceClose \/ TSettled \/ TEventRefused \/ TFin \/ TScorer \/ TExtra \/ TOpen \/ TMsg \/ TDeliver \/ TPersist \/ TComplete \/ TSend \/ TDisconnect \/ TReconnect
              \/ TEvent \/ TOther \/ TMgrSnap \/ TCrash \/ TBroadcast \/ TProj
 
 TraceSpec == TraceInit /\ [][TraceNext]_tvars
